@@ -1,0 +1,10 @@
+// +build verif
+
+// Hooks for the /verif correspondence harness. Compiled only with -tags verif; add-only.
+
+package identity
+
+// VerifSetETHWitness / VerifIsETHWitness give a harness that runs several application
+// instances in one process access to the package-level witness flag set by WitnessStore.Init.
+func VerifSetETHWitness(b bool) { isETHWitness = b }
+func VerifIsETHWitness() bool   { return isETHWitness }
